@@ -43,7 +43,7 @@ def plan(tier, seed):
 def run_shard(spec, acc):
     prof = gen.profile(p_green=0.7, p_forward=0.6,
                        w={'status': 10, 'stale_status': 4, 'commit_event': 8,
-                          'admin': 0.6})
+                          'admin': 0.6, 'push_to_destination': 0.8})
     openers = [None, gen.OPENERS['two_prs_same_base'],
                gen.OPENERS['stab_between_devs'], gen.OPENERS['three_queued'],
                gen.OPENERS['three_queued'],
@@ -51,7 +51,9 @@ def run_shard(spec, acc):
                gen.OPENERS['stab_paths'], gen.OPENERS['stab_paths'],
                gen.OPENERS['manual_on_middle_w'],
                gen.OPENERS['manual_on_middle_w'],
-               gen.OPENERS['batch_merge'], gen.OPENERS['queue_conflict']]
+               gen.OPENERS['batch_merge'], gen.OPENERS['queue_conflict'],
+               gen.OPENERS['dest_pushed_while_queued'],
+               gen.OPENERS['dest_pushed_while_queued']]
     if spec['tier'] == 'quick':
         n_hist, jobs, cap = 9, 12, 600
     else:
